@@ -1386,8 +1386,11 @@ func (enc *VP8Encoder) EncodeFrame() ([]byte, error) {
 		// Serial path: collect stats separately (not merged into encodeFrame).
 		enc.collectAllStats(&stats)
 	}
-	if optimizeProba(&stats, &enc.proba) > 0 {
-		// Re-record tokens with optimized probabilities.
+	if optimizeProba(&stats, &enc.proba) > 0 || !useParallel {
+		// Re-record tokens with the final probabilities. The serial path
+		// refreshes the table while it records (refreshProbas), so its tokens
+		// always have to be re-recorded: they must be coded with exactly the
+		// probabilities the frame header announces.
 		enc.rerecordAllTokens()
 	}
 
